@@ -165,6 +165,8 @@ See also: fixed, rational
         stringify a guarded value
         print at specified display precision
         '''
+        if Guarded.precision == 0 and Guarded.guard == 0:
+            return str(self._value)     # no decimal places at all: print like Fixed integer arithmetic
         sign = '-' if self._value < 0 else ''
         v = abs(self._value)    # format the magnitude; // and % floor toward -infinity
         #
